@@ -1,4 +1,6 @@
 import Orca.Lemmas.SpecialFlat
+import Orca.Gen.ResolverOutline
+import Orca.Model.ResolverOutlineSpec
 import Orca.Lemmas.StackSpec
 import Orca.Lemmas.ApiPlan
 /-!
@@ -190,6 +192,25 @@ theorem c22_no_function_level_probe_is_lost (f : Func) (hsp : f.hasSpecial = tru
     (∀ t ∈ f.entry, t ∈ (lower f).1) ∧ (∀ t ∈ f.exit, t ∈ (lower f).1) :=
   lower_keeps_fn f hsp hp out nlf hne hs
 
+/-- **Nothing is lost, for every plan without block alternates**: each instruction's `before` code, each construct's block-entry,
+    block-exit and semantic-after code and each branch's semantic-after code is in the encoded function (`KeptAll`, Lemmas/StackFull.lean)
+    — with exactly one exception, which the statement names: an unconditional branch or `br_table` all of whose targets are the
+    function's own label (finding F15, recorded in known-findings.txt). With `c22_no_function_level_probe_is_lost` this is the positive
+    half of C22 for every such plan; inside a region removed by a block alternate probes are discarded on purpose (C21). -/
+theorem c22_nothing_is_lost_except_F15 (f : Func) (hsp : f.hasSpecial = true) (hp : ∀ x ∈ f.body, PlainF x)
+    (hna : ∀ x ∈ f.body, x.blockAlt = none) (out : List Tok) (nlf : Nat)
+    (hs : specRunF (f.body.length - 1) (entryToks f) f.exit 0 [{}] none f.nlocals f.body = some (out, nlf)) :
+    KeptAll 0 f.body (lower f).1 :=
+  lower_keeps_all_F f hsp hp hna out nlf hs
+
+/-- what `KeptAll` says about one instruction at nesting depth `d` (unfolded, so that the statement above can be read here) -/
+theorem c22_kept_one_reads (d : Nat) (x : Instr) (out : List Tok) :
+    keptOne d x out ↔
+      ((∀ t ∈ x.before, t ∈ out)
+       ∧ (x.kind.isBlockStyle = true → ∀ t, t ∈ x.blockEntry ∨ t ∈ x.blockExit ∨ t ∈ x.semAfter → t ∈ out)
+       ∧ (flaggedBranch x = true → ((∃ n, x.kind = .brIf n) ∨ ∃ t ∈ branchTargets x.kind, t < d) → ∀ t ∈ x.semAfter, t ∈ out)) :=
+  Iff.rfl
+
 /-! non-vacuity (decided): entry and exit code, a block with entry and semantic-after probes, a loop replaced by a block alternate, a
     `br_if` with a semantic-after probe (flag local 3), a `return` -/
 set_option maxRecDepth 20000 in
@@ -209,3 +230,12 @@ example :
   decide
 
 end Orca.Lower
+
+/-- **The tie to the source (regenerated on every run).** The skeleton of the driver `resolve_special_instrumentation` — the order of
+    the steps of one iteration (function entry, function exit, the `match` on the operator with its removal paths and their
+    `continue`s, then the three special lists under `has_instr()`, each followed by its `clear_instr_at`) — and of `resolve_bodies` are
+    what `resolveSpecial` / `rstep` / `resolveBodies` were transcribed from. -/
+theorem c22_resolver_code_reviewed :
+    Orca.Gen.Outline.resolve_special_instrumentation = Orca.Lower.Outline.resolve_special_instrumentation
+    ∧ Orca.Gen.Outline.resolve_bodies = Orca.Lower.Outline.resolve_bodies :=
+  ⟨rfl, rfl⟩
